@@ -76,14 +76,29 @@ def native_replay(prog, harness, vals, replay_dir, unimock_feature=False, failed
 
 
 def run_native(replay_dir):
-    """-> {'dev': (reproduced, msg), 'release': (...)}"""
+    """-> {'dev': (reproduced, msg), 'release': (...)}.  Reproduced = the harness does not complete normally when run
+    natively with the solver's values: a failed assertion (panic), an abort (e.g. stack overflow from unbounded
+    recursion) or non-termination within the cap."""
     res = {}
     tgt = os.path.join(run.CACHE, 'x-replay-target')
     for prof, flag in (('dev', []), ('release', ['--release'])):
-        r = subprocess.run(['cargo', 'run', '--offline', '-q', '--target-dir', tgt] + flag, cwd=replay_dir,
-                           env=run.ENV, capture_output=True, text=True, timeout=1200)
+        b = subprocess.run(['cargo', 'build', '--offline', '-q', '--target-dir', tgt] + flag, cwd=replay_dir,
+                           env=run.ENV, capture_output=True, text=True, timeout=1800)
+        if b.returncode != 0:
+            res[prof] = (False, 'replay crate does not build: ' + b.stderr.strip()[-300:])
+            continue
+        exe = os.path.join(tgt, 'release' if flag else 'debug', 'replay')
+        try:
+            r = subprocess.run([exe], cwd=replay_dir, env=run.ENV, capture_output=True, text=True, timeout=60)
+        except subprocess.TimeoutExpired:
+            res[prof] = (True, 'does not terminate natively (60 s cap)')
+            continue
         txt = r.stdout + r.stderr
         m = re.search(r"panicked at [^\n]*\n([^\n]*)", txt)
-        reproduced = r.returncode == 101 and 'panicked at' in txt
-        res[prof] = (reproduced, (m.group(1).strip() if m else txt.strip()[-300:]))
+        if r.returncode == 101 and 'panicked at' in txt:
+            res[prof] = (True, m.group(1).strip() if m else 'panicked')
+        elif r.returncode != 0:
+            res[prof] = (True, f'abnormal termination rc={r.returncode}: ' + txt.strip()[-200:])
+        else:
+            res[prof] = (False, txt.strip()[-300:])
     return res
